@@ -380,6 +380,8 @@ class ExprGen(object):
         op = self.r.choice(['$sum', '$avg', '$max', '$min', '$first', '$last'])
         x = self.r.random()
         if op in ('$first', '$last'):
+            if x < 0.25:
+                return self.op(op, [self.sub('num', d) for _ in range(self.r.choice([0, 1, 2, 3]))])
             return self.op(op, self.field('arr'))
         if x < 0.45:
             return self.op(op, self.group_bare(mixed=op in ('$sum', '$avg')))
@@ -619,11 +621,15 @@ class ExprGen(object):
             other = r.choice([x for x in TYPES if x != t])
             return self.expr(other, d)
         if k == 'arity':
-            op = r.choice(['$subtract', '$divide', '$eq', '$gt', '$arrayElemAt', '$in', '$split',
-                           '$substr', '$strcasecmp', '$cond', '$slice', '$add', '$ifNull',
-                           '$size'])
+            op = r.choice(['$subtract', '$divide', '$mod', '$pow', '$log', '$eq', '$ne', '$gt', '$lte',
+                           '$cmp', '$arrayElemAt', '$in', '$split', '$substr', '$strcasecmp',
+                           '$cond', '$slice', '$add', '$ifNull', '$setEquals', '$size'])
             n = r.choice([0, 1, 3, 4])
-            return self.op(op, [self.sub('num', d) for _ in range(n)])
+            if r.random() < 0.25:
+                # a bare operand counts as one argument
+                return self.op(op, self.sub(r.choice(['num', 'any', 'arr', 'doc']), d))
+            # the operands are not looked at: one of them may well raise
+            return self.op(op, [self.sub(r.choice(['num', 'num', 'any']), d) for _ in range(n)])
         if k == 'unknown':
             return self.op(r.choice(UNKNOWN), self.sub('any', d))
         if k == 'notimpl':
